@@ -58,8 +58,13 @@ def newChunkFromStorage (H : Bytes → Bytes) (dec : Bytes → Option Bytes)
   let c : ChunkObj := { id := id, storage := raw, convs := convs }
   if skipVerify then .ok { c with idCalculated := true }
   else
-    let (sum, c') := c.getID H dec
-    if sum ≠ id then .invalid else .ok c'
+    -- the data has to be obtainable first: `ID()` yields the zero ID when it is not, which must not
+    -- be taken for a match when the zero ID is the one asked for
+    match c.getData dec with
+    | (none, _) => .invalid
+    | (some _, c1) =>
+      let (sum, c') := c1.getID H dec
+      if sum ≠ id then .invalid else .ok c'
 
 /-- `NewChunkWithID(id, b, skipVerify)` -/
 def newChunkWithID (H : Bytes → Bytes) (dec : Bytes → Option Bytes)
